@@ -27,7 +27,7 @@ REASONS = {0: "NeverBuilt", 1: "SignatureChanged", 2: "InvalidValue", 3: "InputR
 
 
 def budget(tier):
-    return 3000 if tier == "quick" else 150000
+    return 25000 if tier == "quick" else 400000
 
 
 def strategy(tier):
